@@ -127,7 +127,12 @@ LabRepeat(v, n, k) ==
 LabRenumber(v, n) ==
     [Lab(v, n, IF v[1] = "tcp" THEN "open" ELSE "closed", {}, 1, 1, FALSE) EXCEPT !.id = @ \o "/renumbered", !.label = @ \o "/tracer_renumbered_between_requests"]
     @@ [noise |-> "", reject |-> 0, renumber |-> TRUE]
-MoreC13 == { LabRenumber(v, 2) : v \in {<<"icmp", "">>, <<"udp", "">>, <<"tcp", "syn">>} } \cup { LabAsym(v, 2, c) : v \in {<<"icmp", "">>, <<"udp", "">>, <<"tcp", "syn">>}, c \in BOOLEAN }
+\* a long-lived process: the 65536-th ICMP run of a process gets echo id 0, and so does the 131072-th (the kernel replaces an IP
+\* identification of 0 on header-included raw packets, so routers quote the kernel's choice): the hops are the same as ever
+LabEchoWrap(n, base) ==
+    [Lab(<<"icmp", "">>, n, "closed", {}, 1, 1, FALSE) EXCEPT !.id = @ \o "/echo_id_after_" \o ToString(base), !.label = @ \o "/echo_id_wraps_to_0",
+                                                          !.req = [@ EXCEPT !.e2e = 0] @@ [echo_base |-> base]] @@ [noise |-> "", reject |-> 0]
+MoreC13 == { LabEchoWrap(2, 65535), LabEchoWrap(2, 131071), LabEchoWrap(2, 65534) } \cup { LabRenumber(v, 2) : v \in {<<"icmp", "">>, <<"udp", "">>, <<"tcp", "syn">>} } \cup { LabAsym(v, 2, c) : v \in {<<"icmp", "">>, <<"udp", "">>, <<"tcp", "syn">>}, c \in BOOLEAN }
            \cup (IF IOEnv.VT_TIER = "quick" THEN {} ELSE { LabRepeat(<<"tcp", "syn">>, 1, 40) })
            \cup { LabReject(n, k, c) : n \in {2, MaxN}, k \in {1, 2}, c \in BOOLEAN } \cup { LabNoise(v, 2, c) : v \in {<<"icmp", "">>, <<"udp", "">>, <<"tcp", "syn">>}, c \in BOOLEAN }
 
@@ -178,6 +183,8 @@ C15Lab == { LabSrv("udp", 2, 63), LabSrv("icmp", 1, 2) }
 \* C12 on the real capture path (AF_PACKET socket + attached classic-BPF program + drain): with the filters the code installs the
 \* answers of every family still arrive - ICMPv4, ICMPv6, the TCP tuple filter with its ICMP branch, the SYN-ACK filter of the handshake
 Re(x, i) == [x EXCEPT !.id = "C12/lab/" \o ToString(i), !.label = "real_capture_path/" \o @]
+\* C02 on the real kernel: what only real sockets show - identifiers the kernel rewrites, answers entering on another interface
+C02Lab == { [x EXCEPT !.id = "C02/lab/" \o @] : x \in { LabEchoWrap(2, 65535), LabEchoWrap(1, 131071), LabAsym(<<"udp", "">>, 2, FALSE), LabAsym(<<"icmp", "">>, 2, FALSE) } }
 C12Lab == { Re(Lab6("icmp", 1, {}, FALSE), 1), Re(Lab6("udp", 2, {}, FALSE), 2), Re(Lab(<<"udp", "">>, 2, "closed", {}, 1, 1, FALSE), 3),
             Re(Lab(<<"icmp", "">>, 1, "closed", {}, 1, 1, FALSE), 4), Re(Lab(<<"tcp", "syn">>, 2, "open", {}, 1, 1, FALSE), 5),
             Re(Lab(<<"tcp", "sack">>, 2, "open", {}, 1, 1, FALSE), 6),
@@ -185,7 +192,7 @@ C12Lab == { Re(Lab6("icmp", 1, {}, FALSE), 1), Re(Lab6("udp", 2, {}, FALSE), 2),
             Re(LabAsym(<<"tcp", "syn">>, 2, FALSE), 7), Re(LabAsym(<<"udp", "">>, 2, FALSE), 8), Re(LabAsym(<<"tcp", "sack">>, 2, FALSE), 9) }
 
 LabGen == IF "VT_GEN" \in DOMAIN IOEnv THEN IOEnv.VT_GEN ELSE "C13"
-LabCases == IF LabGen = "C08" THEN C08Lab ELSE IF LabGen = "C12" THEN C12Lab ELSE IF LabGen = "C15" THEN C15Lab ELSE IF LabGen = "C17" THEN C17Lab ELSE All \cup Extra \cup CliAll \cup MoreC13
+LabCases == IF LabGen = "C08" THEN C08Lab ELSE IF LabGen = "C02" THEN C02Lab ELSE IF LabGen = "C12" THEN C12Lab ELSE IF LabGen = "C15" THEN C15Lab ELSE IF LabGen = "C17" THEN C17Lab ELSE All \cup Extra \cup CliAll \cup MoreC13
 ASSUME ndJsonSerialize(IOEnv.VT_OUT, SetToSeq(LabCases)) /\ PrintT(<<"GEN", LabGen, Cardinality(LabCases), Cardinality(LabCases)>>)
 VARIABLE x
 Init == x = 0
